@@ -12,6 +12,10 @@ Tie to the code:
   * predicate on the implementation's own table / temperatures / outputs with an oracle written
     here in `fractions.Fraction` + `math` (tiling, fluid thermal mass, layer resistances, energy
     balance stored + leak = injected, far-field leak, finite, monotone, sign bounds);
+  * call history: ONE RadialNumericalBH re-used for sequences of 2-4 boreholes (as GHE re-uses
+    `self.radial_numerical`), incl. steps engineered to keep R_f and R_b* bit-identical while heat
+    capacities / height change; every element must be bit-identical to a fresh object and satisfy the
+    predicate; two probes (soil conductivity, radii) record what `partial_init` does not refresh;
   * the 0.5 % finer-mesh claim: differential run of the Float model with 2x cells and dt/4
     (level translation_validation, reported in the evidence; not a theorem).
 """
@@ -183,16 +187,23 @@ def build_bhe(c):
     return eq, info
 
 
-def run_impl(c):
+def run_impl(c, shared=None):
     """Run the real calc_sts_g_functions; capture the cell table, the diagonals handed to LAPACK and the
-    temperatures after every solve by wrapping `fill_radial_cells` / `dgtsv` in-process (no source hook)."""
+    temperatures after every solve by wrapping `fill_radial_cells` / `dgtsv` in-process (no source hook).
+    `shared`: a one-element list holding a RadialNumericalBH to be re-used across calls (call-history stream,
+    the way GHE re-uses `self.radial_numerical`); it is created from the first borehole when empty."""
     import numpy as np
     import ghedesigner.radial_numerical_borehole as rnb
 
     bhe, info = build_bhe(c)
     cap = {"T0": [], "Tb": [], "Tn2": [], "Tn1": []}
     try:
-        rn = rnb.RadialNumericalBH(bhe)
+        if shared is not None and shared:
+            rn = shared[0]
+        else:
+            rn = rnb.RadialNumericalBH(bhe)
+            if shared is not None:
+                shared.append(rn)
     except ArithmeticError as e:   # t_s is computed in the constructor as well (same expression as partial_init)
         R_b = float(bhe.calc_effective_borehole_resistance())
         return {"info": info, "raised": type(e).__name__, "stage": "init", "cap": cap,
@@ -237,6 +248,7 @@ def run_impl(c):
             res["raised"] = type(e).__name__
     finally:
         rnb.dgtsv = real_dgtsv
+        del rn.fill_radial_cells      # drop the instance-level wrapper: the object may be used again
     res["t_s"] = float(rn.t_s)
     res["calc_time"] = float(rn.calc_time_in_sec)
     res["cap"] = cap
@@ -402,6 +414,8 @@ def close(a, b, tol):
 def worker(c):
     import numpy as np
 
+    if c.get("kind") == "history":
+        return history_worker(c)
     out = {"case": c, "corr": [], "fails": [], "metrics": {}, "info": {}}
     try:
         res = run_impl(c)
@@ -544,6 +558,141 @@ def worker(c):
     return out
 
 
+
+# ----------------------------------------------------------------------------- call-history stream
+# GHE keeps ONE RadialNumericalBH (`self.radial_numerical`) and calls calc_sts_g_functions(self.bhe_eq) on it again and
+# again with changing exchangers.  A history is a sequence of 2-4 boreholes solved on one object; every element must be
+# bit-identical to the same borehole solved on a fresh object (and satisfy the usual predicate).
+HIST_VARS = ["capacities", "capacities", "height", "grout_pipe_k", "flow_fluid", "same", "back", "everything_but_soil_k_and_radii"]
+
+
+def other_in(rng, v, lo, hi):
+    """A value of the generator's range [lo, hi] at least 10 % of the range away from v."""
+    while True:
+        w = _round(rng.uniform(lo, hi), 5)
+        if abs(w - v) > 0.1 * (hi - lo):
+            return w
+
+
+def vary_real(rng, base, first, var):
+    c = dict(base)
+    if var == "capacities":       # R_f and R_b* bit-identical (they do not depend on rho*cp), the grid and t_s do
+        c["rc_soil"] = other_in(rng, base["rc_soil"], 1.3e6, 3.9e6)
+        c["rc_grout"] = other_in(rng, base["rc_grout"], 1.5e6, 4.2e6)
+        c["rc_pipe"] = rng.choice([base["rc_pipe"], other_in(rng, base["rc_pipe"], 1.2e6, 2.2e6)])
+    elif var == "height":
+        c["H"] = _round(rng.uniform(20, 200), 4)
+    elif var == "grout_pipe_k":
+        c["k_grout"] = _round(rng.uniform(0.6, 2.5), 3)
+        c["k_pipe"] = _round(rng.uniform(0.3, 0.6), 3)
+    elif var == "flow_fluid":
+        c["m_flow"] = _round(math.exp(rng.uniform(math.log(0.02), math.log(1.5))), 4)
+        c["fluid"] = list(rng.choice(FLUIDS))
+    elif var == "back":
+        c = dict(first)
+    elif var == "everything_but_soil_k_and_radii":
+        for k, v in vary_real(rng, vary_real(rng, vary_real(rng, vary_real(rng, base, first, "capacities"), first, "height"),
+                                            first, "grout_pipe_k"), first, "flow_fluid").items():
+            c[k] = v
+    elif var == "soil_k":         # probe: c_0 = 2 pi k_soil is computed in __init__ only
+        c["k_soil"] = _round(base["k_soil"] * rng.choice([0.5, 1.5]), 4)
+    elif var == "radii":          # probe: radii / thicknesses are computed in __init__ only
+        c["r_b"] = _round(min(0.12, base["r_b"] * 1.15), 4)
+    return c
+
+
+def vary_stub(rng, base, first, var):
+    c = dict(base)
+    if var == "capacities":       # identical R_f, R_b*, different capacities (incl. the fluid's)
+        for k, lo, hi in (("rc_soil", 1.3e6, 3.9e6), ("rc_grout", 1.5e6, 4.2e6), ("rc_pipe", 1.2e6, 2.2e6), ("rc_fluid", 3.4e6, 4.25e6)):
+            c[k] = other_in(rng, base[k], lo, hi)
+    elif var == "height":
+        c["H"] = _round(rng.uniform(20, 200), 4)
+    elif var in ("grout_pipe_k", "flow_fluid"):   # for a stub these only move the resistances
+        c["R_f"] = _round(math.exp(rng.uniform(math.log(0.002), math.log(0.6))), 5)
+        c["R_b"] = _round(c["R_f"] / 2 + rng.uniform(0.03, 0.35), 5)
+    elif var == "back":
+        c = dict(first)
+    elif var == "everything_but_soil_k_and_radii":
+        c = vary_stub(rng, vary_stub(rng, vary_stub(rng, base, first, "capacities"), first, "height"), first, "flow_fluid")
+        c["final_time"] = rng.choice([None, _round(rng.uniform(3 * 3600, 60 * 3600), 5)])
+    elif var == "soil_k":         # identical resistances, different soil conductivity
+        c["k_soil"] = c["k_s"] = _round(base["k_soil"] * rng.choice([0.5, 1.5]), 4)
+    elif var == "radii":          # identical resistances, different pipe
+        c["r_out"] = _round(base["r_out"] * 0.9, 5)
+        c["r_in"] = _round(base["r_in"] * 0.9, 5)
+    return c
+
+
+def gen_history(rng, stub=False, probe=None, h_max=200.0):
+    if stub:
+        first = gen_stub(rng)
+        first["H"] = _round(rng.uniform(20, h_max), 4)
+    else:
+        first = gen_real(rng, rng.choices(["SINGLEUTUBE", "DOUBLEUTUBEPARALLEL", "COAXIAL"], [80, 10, 10])[0], H=_round(rng.uniform(20, h_max), 4))
+    vary = vary_stub if stub else vary_real
+    if probe:
+        vs = [probe]
+    else:
+        vs = [rng.choice(HIST_VARS) for _ in range(rng.randint(1, 3))]
+        if "capacities" not in vs:
+            vs[rng.randrange(len(vs))] = "capacities"
+    seq = [first]
+    for v in vs:
+        seq.append(vary(rng, seq[-1], first, v))
+    return {"kind": "history", "seq": seq, "vars": ["first"] + vs, "probe": probe, "H": max(x["H"] for x in seq) * len(seq)}
+
+
+HIST_FIELDS = ("lntts", "g", "g_bhw")
+
+
+def history_worker(c):
+    """One RadialNumericalBH for the whole sequence vs a fresh object per borehole: bit-identical, and the usual
+    predicate on what the re-used object produced."""
+    import numpy as np
+
+    out = {"case": c, "history": True, "fails": [], "corr": [], "metrics": {}, "elements": 0}
+    shared = []
+    for i, (sub, var) in enumerate(zip(c["seq"], c["vars"])):
+        try:
+            fresh = run_impl(sub)
+            got = run_impl(sub, shared=shared)
+        except Exception as e:  # noqa: BLE001  (object construction failed: outside C10)
+            out["build_failed"] = f"{type(e).__name__}: {e}"[:200]
+            return out
+        out["elements"] += 1
+        diffs = []
+        if fresh["raised"] != got["raised"]:
+            diffs.append(f"raised {got['raised']} vs fresh {fresh['raised']}")
+        for k in ("t_s", "calc_time"):
+            if fresh[k] != got[k]:
+                diffs.append(f"{k} {got[k]!r} vs fresh {fresh[k]!r}")
+        fc, gc = fresh["cap"], got["cap"]
+        for k in ("cells0", "dl", "d", "du"):
+            if (k in fc) != (k in gc) or (k in fc and not np.array_equal(fc[k], gc[k])):
+                diffs.append(f"{k} differs" if k in fc and k in gc else f"{k} present only once")
+        if len(fc["T0"]) != len(gc["T0"]):
+            diffs.append(f"steps {len(gc['T0'])} vs fresh {len(fc['T0'])}")
+        if fresh["raised"] is None and got["raised"] is None:
+            for k in HIST_FIELDS:
+                if not np.array_equal(fresh[k], got[k]):
+                    j = int(np.argmax(np.abs(fresh[k] - got[k]))) if fresh[k].shape == got[k].shape else -1
+                    diffs.append(f"{k}[{j}] {float(got[k][j])!r} vs fresh {float(fresh[k][j])!r}")
+        if diffs:
+            key = {"soil_k": "history-stale-c0-after-soil-k-change", "radii": "history-stale-geometry-after-radius-change"}.get(
+                c.get("probe"), "history-differs-from-fresh-object")
+            out["fails"].append((key, f"borehole #{i} ({var}) of a sequence solved on ONE RadialNumericalBH differs from the same borehole "
+                                      f"on a fresh object: " + "; ".join(diffs[:5])))
+        # the usual predicate on what the re-used object produced (not for the probes: their staleness is reported above)
+        if not c.get("probe") and not sub.get("degenerate") and "cells0" in gc and "inputs" in got and "counts" in got:
+            fails, metrics = predicate(sub, got)
+            out["fails"] += [(k if k.startswith("far-field-leak") else "history:" + k, f"borehole #{i} ({var}) on a re-used object: {w}") for k, w in fails]
+            for k in ("balance", "tile_edges", "fluid_mass_rel", "layers_rel"):
+                if metrics.get(k) is not None:
+                    out["metrics"][k] = max(out["metrics"].get(k, 0.0), abs(metrics[k]))
+    return out
+
+
 # ----------------------------------------------------------------------------- run
 def corpus_cases():
     d = core.CORPUS / "C10"
@@ -568,6 +717,7 @@ def bucket(x, edges, fmt="{}"):
 def run(ctx: core.Ctx):
     ctx.rule = ("one case = one borehole (real SingleUTube / equivalent of a double U-tube or coaxial pipe built through pygfunction, or a duck-typed "
                 "object giving direct control of r_b, r_p, R_f, R_b*, capacities, H, final_time) run through the real calc_sts_g_functions; "
+                "plus call histories: one RadialNumericalBH re-used for 2-4 boreholes in a row, compared bit for bit with a fresh object per borehole; "
                 "distinct = distinct input tuples; non-trivial = the response was computed (degenerate inputs that must raise are counted as trivial)")
     ctx.trusted_base += [
         "translator plug-in translate/gen_radial.py (literal constants of radial_numerical_borehole.py)",
@@ -606,14 +756,37 @@ def run(ctx: core.Ctx):
         fine = [gen_real(rng, "SINGLEUTUBE", H=_round(rng.uniform(20, 150 if quick else 400), 4)) for _ in range(n_fine)]
         for c in fine:
             c["fine"] = True
-        cases = cases + fine + real + stubs
+        n_hr, n_hs, n_pr = (12, 8, 2) if quick else (160, 90, 8)
+        hmax = 200.0 if quick else 400.0
+        hist = [gen_history(rng, stub=False, h_max=hmax) for _ in range(n_hr)] + [gen_history(rng, stub=True, h_max=hmax) for _ in range(n_hs)]
+        # probes of what partial_init does not refresh (soil conductivity -> c_0, radii -> grid geometry)
+        for pr in ("soil_k", "radii"):
+            hist += [gen_history(rng, stub=(i % 2 == 1), probe=pr, h_max=120.0) for i in range(n_pr)]
+        cases = cases + fine + real + stubs + hist
     # longest first so that the pool stays busy
     order = sorted(range(len(cases)), key=lambda i: -(cases[i].get("H") or 0) * (9 if cases[i].get("fine") else 1))
     results = core.pool_map(worker, [cases[i] for i in order], workers=16)
 
-    fine_rows, worst = [], {}
+    fine_rows, worst, hist_samples = [], {}, 0
     for r in results:
         c = r["case"]
+        if r.get("history"):
+            if "build_failed" in r:
+                ctx.count("build-failed(outside C10):history")
+                ctx.case(signature(c), False)
+                continue
+            ctx.case(signature(c), True, {"history": c["vars"], "H": [x["H"] for x in c["seq"]]} if hist_samples < 2 else None)
+            hist_samples += 1
+            ctx.count(f"history:len={len(c['seq'])}")
+            ctx.count("history:objects=" + ("stub" if c["seq"][0]["kind"] == "stub" else c["seq"][0]["pipe_kind"]))
+            for v in c["vars"][1:]:
+                ctx.count("history:step=" + v)
+            ctx.count("history:boreholes-compared-bitwise", r["elements"])
+            for k, v in r["metrics"].items():
+                worst["history_" + k] = max(worst.get("history_" + k, 0.0), v)
+            for key, what in r["fails"]:
+                ctx.finding(key, what, {"case": c})
+            continue
         kind = c["kind"] if c["kind"] == "stub" else c["pipe_kind"]
         if "build_failed" in r:
             ctx.count("build-failed(outside C10):" + kind)
